@@ -320,3 +320,108 @@ def _nested_sets_lemma():
 
 LEMMAS += [L.SmtLemma("one-dimensional-point-sets-grow-with-the-level", _nested_sets_lemma,
                       note="consequence of the characterisation of get_point_coord_for_each_dim and a level test that is monotone in the component level")]
+
+
+# --------------------------------------------------------------------------- get_subtraction_value, versions 2 and 3 (loop-free): relational contracts
+MAXLEVEL = z3.Function("MaxLevelAround", I, I, I)        # (dimension, interval index) -> highest level in the neighbourhood the library scans (get_max_level)
+Vec2 = z3.ArraySort(I, I)
+
+
+class GetMaxLevel(Contract):
+    file, qualname = FILE, "SpatiallyAdaptiveSingleDimensions2.get_max_level"
+    trusted = True
+    note = "highest point level around interval i of dimension d (scan of the neighbouring intervals, cached): a function of the refinement structure, (d, i) -> level >= 1"
+
+    def applies(self, receiver, args):
+        return "version" in receiver.fields
+
+    def inputs(self, S):
+        return {"self": Obj("SpatiallyAdaptiveSingleDimensions2", {}), "refine_container": None, "refine_obj": None, "i": S.int("i"), "d": S.int("d")}
+
+    def result(self, S, env):
+        from pyvc import values as Vv
+        r = MAXLEVEL(Vv.to_z3(env["d"]), Vv.to_z3(env["i"]))
+        S.assume(r >= 1)
+        return r
+
+
+def _sub_inputs(S, version, tag=""):
+    dim = S.int("dim")
+    S.assume(dim >= 1)
+    slf = Obj("SpatiallyAdaptiveSingleDimensions2", dict(dim=dim, version=version, lmin=S.seq("lmin", dim, I), lmax=S.seq("lmax", dim, I),
+                                                         max_level_dict=S.dict("max_level_dict", Vec2, I), subtraction_value_cache=S.dict("sv_cache", Vec2, I)))
+    return slf, dict(self=slf, refineObj=None, refineContainer=None, i=S.int("i"), max_coarsenings=S.seq("max_coarsenings", dim, I), d=S.int("d"), levelvec=S.seq("levelvec" + tag, dim, I))
+
+
+def _sub_pre(env):
+    s, d = env["self"], env["d"]
+    l = z3.Select(env["levelvec"].arr, d)
+    return [("d-in-range", z3.And(d >= 0, d < s.fields["dim"])), ("interval-index", env["i"] >= 0),
+            ("level-range", z3.And(z3.Select(s.fields["lmin"].arr, d) <= l, l <= z3.Select(s.fields["lmax"].arr, d))),
+            ("lmin-at-least-1", z3.Select(s.fields["lmin"].arr, d) >= 1)]
+
+
+def _sub_model_to_input(version):
+    def conv(model):
+        from pyvc import modelparse as mp
+        dim = mp.num(model.get("dim", "1")) or 1
+        return {"kind": "C03.subtraction", "version": version, "dim": dim, "d": mp.num(model.get("d", "0")) or 0, "lmin": mp.seq(model, "lmin", dim), "lmax": mp.seq(model, "lmax", dim)}
+    return conv
+
+
+class SubtractionMonotone(Contract):
+    """relational: the same interval seen from two component grids whose levels in dimension d are l and l+1 -- the level down to which points are kept,
+    max(l - subtraction value, 1), does not decrease: the 1-D point set grows with the component level (versions 2 and 3)"""
+    file, qualname = FILE, "SpatiallyAdaptiveSingleDimensions2.get_subtraction_value"
+    relational = True
+
+    def __init__(self, version):
+        self.version = version
+        self.label = "SpatiallyAdaptiveSingleDimensions2.get_subtraction_value[version %d, monotone]" % version
+        self.model_to_input = _sub_model_to_input(version)
+
+    def inputs(self, S):
+        slf, a = _sub_inputs(S, self.version)
+        b = dict(a)
+        b["levelvec"] = S.seq("levelvec_b", slf.fields["dim"], I)
+        S.assume(z3.Select(b["levelvec"].arr, a["d"]) == z3.Select(a["levelvec"].arr, a["d"]) + 1)
+        return (a, b)
+
+    def pre(self, S, env):
+        a, b = env
+        return _sub_pre(a) + [(n + ".b", e) for n, e in _sub_pre(b)]
+
+    def post(self, S, old, env, results):
+        from pyvc import values as Vv
+        a, b = old
+        ra, rb = [Vv.to_z3(r) for r in results]
+        la, lb = z3.Select(a["levelvec"].arr, a["d"]), z3.Select(b["levelvec"].arr, b["d"])
+        keep = lambda l, r: z3.If(l - r >= 1, l - r, 1)  # noqa
+        return [Cl("kept-level-monotone-in-component-level", keep(la, ra) <= keep(lb, rb), prop=True)]
+
+
+class SubtractionReadsOwnLevel(SubtractionMonotone):
+    """relational: two component grids with the same level in dimension d get the same subtraction value (the 1-D set depends on (d, l_d) only)"""
+
+    def __init__(self, version):
+        self.version = version
+        self.label = "SpatiallyAdaptiveSingleDimensions2.get_subtraction_value[version %d, reads-own-level]" % version
+        self.model_to_input = _sub_model_to_input(version)
+
+    def inputs(self, S):
+        slf, a = _sub_inputs(S, self.version)
+        b = dict(a)
+        b["levelvec"] = S.seq("levelvec_b", slf.fields["dim"], I)
+        S.assume(z3.Select(b["levelvec"].arr, a["d"]) == z3.Select(a["levelvec"].arr, a["d"]))
+        return (a, b)
+
+    def pre(self, S, env):
+        return _sub_pre(env[0])
+
+    def post(self, S, old, env, results):
+        from pyvc import values as Vv
+        ra, rb = [Vv.to_z3(r) for r in results]
+        return [Cl("depends-only-on-own-level", ra == rb, prop=True)]
+
+
+CONTRACTS += [GetMaxLevel(), SubtractionMonotone(2), SubtractionReadsOwnLevel(2), SubtractionMonotone(3), SubtractionReadsOwnLevel(3)]
